@@ -532,6 +532,31 @@ def symx_report(prop, tier, seed, index, results, feas, meta, known):
             json.dump({"property": prop, "engine": "symx", "scenario": name, "goal": g["name"], "kind": g["kind"], "replay_engine": rep["engine"], "inputs": rep["inputs"], "how_found": rep["how"], "negated_goal_smt": g["smt"], "path_condition": pth["pi"], "precondition": pth["pre"]}, open(rp, "w"), indent=1)
             entry["replay_file"] = rp
             violations.append(entry)
+    # translator validation: run every scenario natively (exact-rational / f64 instantiation of the same
+    # code) on seeded inputs; a goal the solver discharged on every path must never evaluate to false
+    goal_verdicts = {}
+    for (name, pth, g, to), r in results:
+        goal_verdicts.setdefault((name, g["name"]), set()).add(r["verdict"])
+    nval = int(os.environ.get("VERIF_VALIDATE_SAMPLES", "6"))
+
+    def vjob(sc):
+        eng = "cn" if sc["has_cn"] else ("f64" if sc["has_f64"] else None)
+        if eng is None:
+            return sc["name"], []
+        return sc["name"], run_replay(sc["name"], eng, None, seed * 1000 + 17, nval, meta["rundir"])
+
+    traces, mismatches, vsamples = 0, [], []
+    with cf.ThreadPoolExecutor(max_workers=JOBS) as ex:
+        for name, runs in ex.map(vjob, index):
+            for r in runs:
+                if r.get("error") or any(p != "T" for p in r["pre"]) or r["panic"] is not None:
+                    continue
+                traces += 1
+                if len(vsamples) < 3:
+                    vsamples.append({"scenario": name, "engine": r["engine"], "inputs": dict(r["inputs"]), "goals_true": sum(1 for _, v in r["goals"] if v == "T"), "goals_unknown": sum(1 for _, v in r["goals"] if v == "U")})
+                for gname, v in r["goals"]:
+                    if v == "F" and goal_verdicts.get((name, gname)) == {"unsat"}:
+                        mismatches.append({"scenario": name, "goal": gname, "inputs": dict(r["inputs"])})
     npaths = sum(1 for s in index for p in s["_paths"] if not p.get("variant"))
     infeasible = sum(1 for s in index for p in s["_paths"] if p.get("_feas") == "unsat" and not p.get("variant"))
     vac = [s["name"] for s in index if all(p.get("_feas") == "unsat" or p["status"] == "abort" for p in s["_paths"])]
@@ -558,6 +583,9 @@ def symx_report(prop, tier, seed, index, results, feas, meta, known):
         "emit_time_s": round(meta["emit_s"], 2),
         "distinct_scripts": len(shas),
         "samples": samples,
+        "native_validation_traces": traces,
+        "native_validation_samples": vsamples,
+        "encoding_mismatches": mismatches[:10],
     }
     return cov, violations, known_hits, nonrepro, disagreements, vac
 
@@ -656,12 +684,12 @@ def main():
         "coverage": {
             "states": max(1, s.get("paths_explored", 0) - s.get("paths_infeasible", 0) + kc.get("harnesses_run", 0)),
             "transitions": max(1, s.get("decisions", 0) + kc.get("checks_total", 0)),
-            "traces_validated_against_impl": len(known_hits) + len(violations),
+            "traces_validated_against_impl": s.get("native_validation_traces", 0) + kc.get("playbacks", 0),
             "samples": samples,
             "evaluations": max(1, queries),
             "distinct_nontrivial": distinct,
             "rule": "one evaluation = one solver query (symx: negated goal or path feasibility under the path condition; kani: one proof harness decided by CBMC). distinct_nontrivial = number of distinct SMT scripts (by SHA-1) with verdict unsat whose goal is not syntactically `true`, plus Kani harnesses that passed with their cover (reachability) witness satisfied.",
-            "explanation": "bounded symbolic execution of the real code + SMT/SAT verdicts; 'states' = feasible symbolic paths + harnesses, 'transitions' = branch decisions on those paths + CBMC property checks; traces_validated = solver counterexamples replayed on the native build",
+            "explanation": "bounded symbolic execution of the real code + SMT/SAT verdicts; 'states' = feasible symbolic paths + harnesses, 'transitions' = branch decisions on those paths + CBMC property checks; traces_validated_against_impl = native runs (exact-rational / f64 instantiation of the same scenario code on seeded inputs) on which every solver-discharged goal was confirmed not false (translator validation), plus Kani concrete playbacks",
             "bounds": spec.get("bounds", {}),
             "engines": coverage,
             "obligations": s.get("goals", 0) + kc.get("harnesses_run", 0),
@@ -691,6 +719,9 @@ def main():
         rc = 2
     if disagreements:
         log("SOLVER-DISAGREEMENT: %s" % disagreements[:5])
+        rc = 2
+    if s.get("encoding_mismatches"):
+        log("ENCODING-MISMATCH (a goal the solver discharged evaluates to false on a native run): %s" % json.dumps(s["encoding_mismatches"][:3])[:1500])
         rc = 2
     if nonrepro:
         for e in nonrepro[:10]:
